@@ -5,6 +5,41 @@ import os
 from . import common as C
 
 
+def vt_stream_stage(run, tier, hb):
+    """C02 over the vector-tile operations (from_vectortiles_merged, vectortiles_update_properties): the cases of C10 and C11,
+    judged on ONE clause -- the box stream delivers for the coordinate what the lookup returns (vt_stream_eq_lookup)."""
+    d = C.outdir("C02_vt")
+    n = 0
+    for prop in ("C10", "C11"):
+        cases = os.path.join(d, "cases_%s.ndjson" % prop)
+        mc = C.run_tlc("mc/MC_VT.tla", "mc/MC_%s_quick.cfg" % prop, "C02_mc_vt_" + prop, workers=8, replay_out=cases, timeout=2400)
+        C.require_clean(mc, "MC_VT")
+        run.add_tlc(mc)
+        case_list = C.read_ndjson(cases)
+        if prop == "C10" and tier == "quick":
+            case_list = case_list[::4]                 # every 4th merge case in the quick tier
+            with open(cases, "w") as f:
+                for c in case_list:
+                    f.write(json.dumps(c) + "\n")
+        t = os.path.join(d, "trace_%s.ndjson" % prop)
+        s = C.run_harness(hb, ["replay", "VT", cases, t, C.scratch_dir("C02vt")], timeout=6000)
+        v = C.validate_trace("trace/Trace_VT.tla", "trace/Trace_VT.cfg", "C02_trace_vt_" + prop, t, timeout=3000, heap="12g")
+        run.add_tlc(v)
+        for (line, fl) in v.fails:
+            if "vt_stream_eq_lookup" in fl["clauses"]:
+                c = fl["case"]
+                rec = {"clause": "vt_stream_eq_lookup", "operation": "from_vectortiles_merged" if prop == "C10" else "vectortiles_update_properties",
+                       "lookup": {k: c.get("lookup", {}).get(k) for k in ("exists", "ok", "err", "h")},
+                       "stream": {k: c.get("stream", {}).get(k) for k in ("exists", "ok", "err", "h")}, "vpl": c.get("vpl")}
+                if line - 1 < len(case_list):
+                    rec["replay_case"] = case_list[line - 1]
+                run.failure(rec)
+        n += s["cases"]
+        run.traces += s["cases"]
+        run.evaluations += s["cases"]
+    return n
+
+
 def run_vt(prop, tier, seed, replay, clauses, rule, nontrivial):
     run = C.Run(prop, tier, seed, "model_checking")
     d = C.outdir(prop)
@@ -29,7 +64,7 @@ def run_vt(prop, tier, seed, replay, clauses, rule, nontrivial):
     for (line, fl) in v.fails:
         for cl in fl["clauses"]:
             if not cl.startswith(clauses):
-                continue
+                continue                                  # (vt_stream_eq_lookup is C02's clause: checks/c02.py)
             c = fl["case"]
             if cl == "update_model_choice":
                 run.observation("update_model_choice", {"opts": c.get("opts"), "variant": c.get("variant")})
